@@ -461,7 +461,16 @@ func (c *FnCtx) mapLookup(st *State, in *ssa.Lookup) Val {
 }
 
 func (c *FnCtx) execRange(st *State, in *ssa.Range) Val {
-	return VOpaque{c.declare("iter", sInt)}
+	it := VOpaque{c.declare("iter", sInt)}
+	if _, isMap := in.X.Type().Underlying().(*types.Map); isMap {
+		if m, ok := c.val(st, in.X).(VInt); ok {
+			if c.iterMap == nil {
+				c.iterMap = map[ssa.Value]string{}
+			}
+			c.iterMap[in] = m.T
+		}
+	}
+	return it
 }
 
 func (c *FnCtx) execNext(st *State, in *ssa.Next) Val {
@@ -477,11 +486,28 @@ func (c *FnCtx) execNext(st *State, in *ssa.Next) Val {
 		}
 		out.E = append(out.E, c.freshVal(st, ti, fmt.Sprintf("next.%d", i)))
 	}
+	if m, ok := c.iterMap[in.Iter]; ok && len(out.E) > 1 {
+		// a key delivered by ranging over a map is a key of that map
+		c.eng.needMapHas = true
+		c.assume(st, implies(out.E[0].(VBool).T, app("maphas", append([]string{m}, c.keyTerms(out.E[1])...)...)))
+	}
 	if in.IsString {
 		// rune index within the string is not modelled
 		c.note("range over string: positions and runes unconstrained")
 	}
 	return out
+}
+
+// keyTerms pads the flattened key to three Int-or-array slots (string keys have three leaves).
+func (c *FnCtx) keyTerms(k Val) []string {
+	ts := flatten(k)
+	switch len(ts) {
+	case 1:
+		return []string{c.eng.emptyArr(), ts[0], "0"}
+	case 3:
+		return ts
+	}
+	panic(unsupported("map key shape"))
 }
 
 func isInvalid(t types.Type) bool {
@@ -556,6 +582,9 @@ func (e *Engine) ghostCall(env *Env, x ECall) (Val, bool) {
 		}
 	case "buflen": // ghost length of a *bytes.Buffer
 		return VInt{sel(c.heapGet(env.st, "G$buf.len", arrSort(sInt)), env.evalInt(x.Args[0]))}, true
+	case "maphas": // maphas(m, k): k is a key of map m (only facts delivered by ranging over m are known)
+		e.needMapHas = true
+		return VBool{app("maphas", append([]string{env.evalInt(x.Args[0])}, c.keyTerms(env.eval(x.Args[1]))...)...)}, true
 	case "wrcalls": // number of Write calls made on w
 		id := readerID(env.eval(x.Args[0]))
 		return VInt{sel(c.heapGet(env.st, "G$wr.calls", arrSort(sInt)), id)}, true
